@@ -2,6 +2,7 @@ package main
 
 import (
 	"fmt"
+	"sort"
 	"strconv"
 	"strings"
 
@@ -47,6 +48,8 @@ var (
 	oCloseBlk map[int]int   // close proposals accepted in the open block, per target
 	oDouble  map[int]bool   // targets that got two close proposals in one block
 	oPrevSt  map[int]int    // status of every proposal after the previous block
+	oPaidBlk map[int]int // payments of each v1 withdrawal by accepted real-withdraw txs of the open block
+	oPaidCnt map[int]int // how often each v1 withdrawal (by number) has been paid by accepted real-withdraw txs
 	oChg     bool // the used amount is recomputed at the end of the open block
 	oQueued  *hx.Violation // a second violation found at the same `end`, reported at the next op
 )
@@ -73,6 +76,7 @@ func oracle(t []string, out string) *hx.Violation {
 	switch t[0] {
 	case "reset":
 		oProps = map[int]*oProp{}
+		oPaidCnt = map[int]int{}
 		oDouble, oPrevSt = map[int]bool{}, map[int]int{}
 		oQueued = nil
 		oExcess = map[int]int64{}
@@ -86,6 +90,7 @@ func oracle(t []string, out string) *hx.Violation {
 	case "begin":
 		oWd, oTrk = map[int]int{}, map[int]int{}
 		oNProp = 0
+		oPaidBlk = map[int]int{}
 		oChg = false
 		oCloseBlk = map[int]int{}
 	case "propose":
@@ -106,6 +111,23 @@ func oracle(t []string, out string) *hx.Violation {
 			if oCloseBlk[tg] >= 2 {
 				oDouble[tg] = true
 			}
+		}
+	case "realwd":
+		if out == "accept" {
+			var v *hx.Violation
+			inTx := map[int]int{}
+			for _, x := range strings.Split(t[1], ",") {
+				i, _ := strconv.Atoi(x)
+				inTx[i]++
+				oPaidCnt[i]++
+				oPaidBlk[i]++
+				if oPaidCnt[i] > 1 && v == nil {
+					v = &hx.Violation{Kind: "withdraw-paid-twice", Detail: fmt.Sprintf(
+						"withdrawal=%d times_in_this_tx=%d times_in_this_block=%d times_before=%d list=%s: an accepted CRCProposalRealWithdraw pays a withdrawal that has been paid already (one approved budget stage, paid more than once)",
+						i, inTx[i], oPaidBlk[i], oPaidCnt[i]-oPaidBlk[i], t[1])}
+				}
+			}
+			return v
 		}
 	case "chg":
 		oChg = true
@@ -129,6 +151,9 @@ func oracle(t []string, out string) *hx.Violation {
 		doubleCloseNow := false
 		var viol *hx.Violation
 		for _, x := range f[4:] {
+			if x == "W" { // the rest lists the withdrawals waiting for their real payment
+				break
+			}
 			p := strings.Split(x, ":")
 			id, _ := strconv.Atoi(p[0])
 			op := oProps[id]
@@ -321,6 +346,75 @@ func (s *genState) pick() (int, *crstate.ProposalState) {
 	return id, w.cm.GetProposal(w.props[id].hash)
 }
 
+// real payment of pending payload-v1 withdrawals out of committee UTXOs
+func (s *genState) realwd() bool {
+	r := s.r
+	var pend []int
+	for h := range w.cm.GetProposalManager().WithdrawableTxInfo {
+		if i, ok := w.widx[h]; ok {
+			pend = append(pend, i)
+		}
+	}
+	sort.Ints(pend)
+	if len(pend) == 0 {
+		return false
+	}
+	// a random non-empty selection in random order
+	r2 := append([]int(nil), pend...)
+	for i := len(r2) - 1; i > 0; i-- {
+		j := r.Intn(i + 1)
+		r2[i], r2[j] = r2[j], r2[i]
+	}
+	list := r2[:1+r.Intn(len(r2))]
+	if len(list) > 3 {
+		list = list[:3]
+	}
+	switch r.Intn(10) {
+	case 0: // adjacent repetition
+		list = append([]int{list[0]}, list...)
+	case 1: // non-adjacent repetition
+		if len(list) >= 2 {
+			list = append(list, list[0])
+		}
+	case 2: // a withdrawal that has been paid already (or is not pending yet)
+		for i := range w.wlist {
+			found := false
+			for _, p := range pend {
+				if p == i {
+					found = true
+				}
+			}
+			if !found {
+				list = append(list, i)
+				break
+			}
+		}
+	}
+	var need int64
+	var ls []string
+	for _, i := range list {
+		need += int64(w.wlist[i].amount)
+		ls = append(ls, strconv.Itoa(i))
+	}
+	var ids []string
+	var inp int64
+	for i, u := range w.cutxos {
+		if u.spent || w.cIn[i] || u.born >= w.height {
+			continue
+		}
+		ids = append(ids, strconv.Itoa(i))
+		inp += int64(u.value)
+		if inp >= need {
+			break
+		}
+	}
+	if inp < need {
+		return false
+	}
+	s.g.Emit("realwd %s %d %s", strings.Join(ls, ","), inp, strings.Join(ids, ","))
+	return true
+}
+
 // payload-version-0 withdrawal: committee UTXOs in, recipient + change out
 func (s *genState) withdraw0(id int, avail int64) bool {
 	r := s.r
@@ -468,6 +562,11 @@ func (s *genState) randomTx() {
 				}
 			}
 		}
+	case 9:
+		if s.realwd() {
+			return
+		}
+		fallthrough
 	case 7:
 		s.g.Emit("fund %d", int64(r.Pick(500, 2000, 5000, 20000))*ela+int64(r.Intn(3)))
 	default:
